@@ -177,6 +177,12 @@ class FromDAOState:
     Dictionary that marks objects as currently being processed by the `from_dao` method.
     """
 
+    pending_fixes: List[Tuple[Any, Dict[str, Any]]] = field(default_factory=list)
+    """
+    Circular references to objects that were still being processed when they were fixed. They are fixed again when the
+    outermost `from_dao` call is done, because the final object of an alternative mapping only exists from then on.
+    """
+
     def has(self, dao_obj: Any) -> bool:
         return id(dao_obj) in self.memo
 
@@ -254,14 +260,29 @@ class FromDAOState:
             the values are either lists or single objects that are resolved using the `memo`
             dictionary.
         """
+        unfinished_refs = {}
         for key, value in circular_refs.items():
             if isinstance(value, list):
                 fixed_list = []
                 for v in value:
                     fixed_list.append(self.memo.get(id(v)))
                 setattr(result, key, fixed_list)
+                if any(id(v) in self.in_progress for v in value):
+                    unfinished_refs[key] = value
             else:
                 setattr(result, key, self.memo.get(id(value)))
+                if id(value) in self.in_progress:
+                    unfinished_refs[key] = value
+        if unfinished_refs:
+            self.pending_fixes.append((result, unfinished_refs))
+
+    def apply_pending_fixes(self) -> None:
+        """
+        Fix the circular references again that pointed to objects which were still being processed.
+        """
+        pending_fixes, self.pending_fixes = self.pending_fixes, []
+        for result, circular_refs in pending_fixes:
+            self.apply_circular_fixes(result, circular_refs)
 
 
 class HasGeneric(Generic[T]):
@@ -697,6 +718,8 @@ class DataAccessObject(HasGeneric[T]):
             state.memo[id(self)] = result
 
         del state.in_progress[id(self)]
+        if not state.in_progress:
+            state.apply_pending_fixes()
         return result
 
     def _allocate_uninitialized_and_memoize(self, state: FromDAOState) -> Any:
